@@ -9,6 +9,9 @@
 //! A watchdog thread decides "deadlock": no progress of the parent for a while, every thread of the
 //! harness asleep and every process of the child's group asleep in `read`/`write`/`wait` (or a zombie).
 //! It then kills the group, which lets every pending future of the parent finish.
+//! Generated cases run on `WORKERS` threads, each with its own runtimes (corpus / replay cases on the main
+//! thread). Debugging aids: `C20_TIMES=1` (time per line), `C20_DEBUG=1` (dump of the processes, pipes and
+//! epoll sets when a deadlock is declared), `C20_THRESH=<ms>` (silence before a deadlock is declared).
 
 use std::{
     fs, io,
@@ -804,8 +807,6 @@ fn exec_line(line: &str, ex: &mut Exec) -> String {
     let cmd = compile(&sc.script);
     let payload = if sc.stdin_null { vec![] } else { payload_of(sc.paylen, sc.payseed) };
     let nops = sc.script.iter().filter(|a| **a == Act::Nop).count() as u64;
-    let reads_stdin = sc.script.iter().any(|a| matches!(a, Act::Copy { .. }));
-    let echoes = sc.script.iter().any(|a| matches!(a, Act::Copy { dst: 'o' | 'e', .. }));
 
     slot().t0_ms.store(now_ms(), Ordering::SeqCst);
     {
@@ -934,7 +935,6 @@ fn exec_line(line: &str, ex: &mut Exec) -> String {
     if !payload.is_empty() || !o.out.is_empty() || !o.err.is_empty() || o.status.map(|s| !s.success()).unwrap_or(false) || o.deadlock {
         ex.nontrivial = true;
     }
-    let _ = (reads_stdin, echoes);
 
     if sc.mode == "loose" {
         return "loose".into();
